@@ -555,6 +555,8 @@ def plan(tier, seed):
         descs.append({"kind": "pair", "seed": seed, "tier": tier, "L": li})
     for b in range(24 if tier == "quick" else 200):
         descs.append({"kind": "triple", "seed": seed, "batch": b, "n": 1200})
+    for b in range(16 if tier == "quick" else 160):
+        descs.append({"kind": "extra", "seed": seed, "batch": b, "n": 150})
     return descs
 
 
@@ -719,12 +721,90 @@ def run_triple(desc, v, fd):
     return keys_out, sample
 
 
+def run_extra(desc, v):
+    """Two monitors added after seeded changes were missed (DESIGN 9.1):
+    (a) the exclude predicate sees the FINAL combination (constants added, derivers applied), also through product;
+    (b) no operation on a sweep changes what its operands enumerate afterwards (list() before == list() after)."""
+    import random
+
+    from pipefunc.sweep import Sweep
+
+    rng = random.Random(f"c17x:{desc['seed']}:{desc['batch']}")
+    keys = []
+    for n in range(desc["n"]):
+        na, nb = rng.randint(1, 3), rng.randint(1, 3)
+        A = [rng.randint(0, 5) for _ in range(na)]
+        B = [rng.randint(0, 5) for _ in range(nb)]
+        overwrite = rng.random() < 0.5
+        dkey = "a" if overwrite else "d"
+        bad = {rng.randint(0, 60) for _ in range(3)} | {10 * A[0] + (B[0] if rng.random() < 0.5 else 0)}
+        deriver = lambda c: 10 * c["a"] + c["b"]  # noqa: E731
+        excl = lambda c, bad=bad, dkey=dkey: c[dkey] in bad  # noqa: E731
+        exp = []
+        for a in A:
+            for b in B:
+                c = {"a": a, "b": b, "k": "K"}
+                c[dkey] = 10 * a + b
+                if c[dkey] not in bad:
+                    exp.append(c)
+        wit = dict(items={"a": A, "b": B}, deriver=f"{dkey} = 10*a + b", exclude=f"{dkey} in {sorted(bad)}")
+        forms = {
+            "single": lambda: Sweep({"a": A, "b": B}, constants={"k": "K"}, derivers={dkey: deriver}, exclude=excl),
+            "product:deriver-left,exclude-right": lambda: Sweep({"a": A}, derivers={dkey: deriver} if not overwrite else None, constants={"k": "K"}).product(
+                Sweep({"b": B}, exclude=excl, derivers={dkey: deriver} if overwrite else None)),
+        }
+        for fname, mk in forms.items():
+            try:
+                sw = mk()
+                got = sw.list()
+                ln = len(sw)
+            except Exception as e:  # noqa: BLE001
+                v.bad(exc_sig(e, f"exclude-on-derived:{fname}") + ("/deriver-overwrites-item" if overwrite else "/deriver-adds-key"),
+                      f"sweep whose exclude reads a derived key raised {exc_msg(e)}", **wit)
+                continue
+            v.count("exclude_on_derived_checks")
+            if ms(got) != ms(exp):
+                v.bad(f"exclude-on-derived:wrong-combos/{fname}" + ("/deriver-overwrites-item" if overwrite else "/deriver-adds-key"),
+                      f"got {short(got)} expected {short(exp)}", **wit)
+            elif ln != len(exp):
+                v.bad(f"exclude-on-derived:len/{fname}", f"len={ln}, list has {len(exp)}", **wit)
+        # (b) operands are not changed by operations on them
+        s1 = Sweep({"a": A}, dims=None if rng.random() < 0.7 else ["a"], constants={"k": "K"} if rng.random() < 0.5 else None)
+        s2 = Sweep({"b": B}, dims=[("b",)] if rng.random() < 0.5 else None)
+        s3 = Sweep({"c": [7, 8]})
+        before = {"s1": s1.list(), "s2": s2.list(), "s3": s3.list()}
+        ops = [("product", lambda: s1.product(s2)), ("product3", lambda: s1.product(s2, s3)), ("add", lambda: s1 + s2),
+               ("filtered_sweep", lambda: s1.filtered_sweep(("a",))), ("add_derivers", lambda: s1.add_derivers(z=lambda c: 1)),
+               ("product-right", lambda: s3.product(s1))]
+        rng.shuffle(ops)
+        for oname, op in ops[:3]:
+            try:
+                res = op()
+                list(res) if not hasattr(res, "list") else res.list()
+            except Exception as e:  # noqa: BLE001
+                v.count("operand_check_op_raised")
+                continue
+            v.count("operand_unchanged_checks")
+            for nm, sw in (("s1", s1), ("s2", s2), ("s3", s3)):
+                try:
+                    now = sw.list()
+                except Exception as e:  # noqa: BLE001
+                    v.bad(exc_sig(e, f"operand-broken-after:{oname}"), f"{nm}.list() raises after {oname}: {exc_msg(e)}", A=A, B=B)
+                    continue
+                if now != before[nm] or len(sw) != len(before[nm]):
+                    v.bad(f"operand-changed-by:{oname}", f"{nm} enumerated {short(before[nm])} before and {short(now)} after {oname}", A=A, B=B)
+        keys.append(f"extra|{A}|{B}|{overwrite}|{sorted(bad)}")
+    return keys, None
+
+
 def run_case(desc):
     v = V()
     fd = Finder(v)
     _PINNED.clear()
     _HEALTH.clear()
-    if desc["kind"] == "single":
+    if desc["kind"] == "extra":
+        keys, sample = run_extra(desc, v)
+    elif desc["kind"] == "single":
         keys, sample = run_single(desc, v, fd)
     elif desc["kind"] == "pair":
         keys, sample = run_pair(desc, v, fd)
@@ -738,6 +818,7 @@ def finalize(agg, tier, seed):
     c = agg.counters
     floors = []
     need = {
+        "exclude_on_derived_checks": 2000, "operand_unchanged_checks": 2000,
         "single_sweeps": 10000 if tier == "quick" else 150000,
         "list_ordered": 3000, "list_multiset_only": 3000, "sweeps_with_empty_dim": 2000,
         "filtered_sweep_checks": 5000, "filtered_with_derivers": 2000, "filtered_without_derivers": 2000,
